@@ -57,6 +57,10 @@ pub fn spline_queries<T: Flt>(rng: &mut Rng, x: &[T], extra: usize) -> Vec<T> {
     for _ in 0..extra {
         q.push(rand_in(rng, lo, hi));
     }
+    if lo <= T::of(0.0) && T::of(0.0) <= hi {
+        q.push(T::of(0.0));
+        q.push(T::of(-0.0));
+    }
     q
 }
 
